@@ -233,7 +233,89 @@ fn c06_one(frames: usize, place: Place, rep: &mut Report, rng: &mut Rng) {
                 fails.push(format!("AllocAll after freeing everything: {}", v.msg));
             }
         }
-        let _ = trees;
+        // ... including: no frame at or beyond the managed count is reported free or handed out
+        for f in frames..frames.next_multiple_of(HUGE_FRAMES) + 1 {
+            if f < trees * TREE_FRAMES && a.stats_at(FrameId(f), 0).free_frames != 0 {
+                fails.push(format!("AllocAll after freeing everything: frame {f} >= managed count {frames} reported free"));
+                break;
+            }
+        }
+        let mut seen = vec![false; frames];
+        let mut n = 0usize;
+        // start the search in the last (possibly partial) huge frame: free its last managed frame last
+        loop {
+            match a.get(None, cfg.request(0, 0, if n % 2 == 0 { Some(0) } else { None })) {
+                Ok((g, _)) => {
+                    if g.0 >= frames || seen[g.0] {
+                        fails.push(format!("AllocAll, freed everything, exhaustion: frame {} handed out {} (managed {frames})", g.0, if g.0 >= frames { "beyond the managed count" } else { "twice" }));
+                        break;
+                    }
+                    seen[g.0] = true;
+                    n += 1;
+                }
+                Err(Error::Memory) => break,
+                Err(e) => {
+                    fails.push(format!("AllocAll, freed everything, exhaustion: unexpected error {e:?}"));
+                    break;
+                }
+            }
+            if n > frames {
+                break;
+            }
+        }
+        if n != frames && fails.is_empty() {
+            fails.push(format!("AllocAll, freed everything: exhaustion at order 0 handed out {n} frames, managed {frames}"));
+        }
+        drop(s);
+
+        // ---- AllocAll, only the partially managed last huge frame touched: free some of its base frames
+        //      (first, last, a few random), then allocate: only those frames may come back
+        let part = frames % HUGE_FRAMES;
+        if part > 0 {
+            let s = Sut::new(frames, Init::AllocAll, &cfg, place).map_err(|e| format!("AllocAll construction: {e:?}"))?;
+            let a = s.a();
+            let base = frames - part;
+            let mut freed: BTreeSet<usize> = BTreeSet::new();
+            freed.insert(base);
+            freed.insert(frames - 1);
+            for _ in 0..3 {
+                freed.insert(base + rng.below(part));
+            }
+            for &f in &freed {
+                if let Err(e) = a.put(FrameId(f), req) {
+                    fails.push(format!("AllocAll: put of base frame {f} in the partial last huge frame failed: {e:?}"));
+                }
+            }
+            for f in frames..frames.next_multiple_of(HUGE_FRAMES) {
+                if a.stats_at(FrameId(f), 0).free_frames != 0 {
+                    fails.push(format!("AllocAll + frees in the partial last huge frame: frame {f} >= managed count {frames} reported free"));
+                    break;
+                }
+            }
+            if a.stats().free_frames != freed.len() {
+                fails.push(format!("AllocAll + {} frees in the partial last huge frame: stats().free_frames = {}", freed.len(), a.stats().free_frames));
+            }
+            let mut got = BTreeSet::new();
+            for i in 0..freed.len() + 2 {
+                // alternate between a slot (row hint of the reservation) and no slot
+                match a.get(None, cfg.request(0, 0, if i % 2 == 0 { Some(0) } else { None })) {
+                    Ok((g, _)) => {
+                        if !freed.contains(&g.0) || !got.insert(g.0) {
+                            fails.push(format!("AllocAll + frees {freed:?}: allocation handed out frame {} (managed {frames})", g.0));
+                            break;
+                        }
+                    }
+                    Err(Error::Memory) => break,
+                    Err(e) => {
+                        fails.push(format!("AllocAll + frees in the partial last huge frame: unexpected error {e:?}"));
+                        break;
+                    }
+                }
+            }
+            if got.len() != freed.len() && fails.is_empty() {
+                fails.push(format!("AllocAll + frees {freed:?}: only {} of them could be allocated again", got.len()));
+            }
+        }
         Ok(())
     })();
     if let Err(e) = r {
@@ -329,21 +411,48 @@ pub fn run_single(args: &Args) -> Report {
             if h.dead {
                 break;
             }
-            // boundary family: free exactly n = 1..3 frames without slot into the slot's own reserved tree
-            let boundary_round = rng.chance(1, 2);
+            // boundary families: free n frames of ONE tree - the slot's own reserved tree (as the allocator
+            // itself reports it) or another one - without slot, through the slot, or mixed; n from 1..3
+            // up to the whole tree, around the row / huge-frame / half-tree boundaries
+            let kind = rng.below(4);
+            let boundary_round = kind < 2;
             if boundary_round {
                 boundary += 1;
-                // the slot's reserved tree = tree of the most recent allocation through the slot
-                let Some(last) = h.held.last().map(|x| x.b.frame) else { break };
-                let tree = last / TREE_FRAMES;
-                let n = rng.range(1, 4);
+                let ntrees = frames.div_ceil(TREE_FRAMES);
+                let reserved: Vec<usize> = (0..ntrees).filter(|&t| h.sut.a().trees.stats_at(TreeId(t)).2).collect();
+                let tree = if !reserved.is_empty() && rng.chance(3, 4) { reserved[0] } else { rng.below(ntrees) };
                 let in_tree: Vec<usize> = h.held.iter().map(|x| x.b.frame).filter(|f| f / TREE_FRAMES == tree).collect();
-                for k in 0..n.min(in_tree.len()) {
-                    let f = in_tree[(k * 7919 + rng.below(in_tree.len())) % in_tree.len()];
+                if in_tree.is_empty() {
+                    continue;
+                }
+                let rnd_n = 1 + rng.below(TREE_FRAMES);
+                let n = if kind == 0 {
+                    rng.range(1, 4)
+                } else {
+                    *rng.pick(&[1usize, 2, 3, 4, 63, 64, 65, HUGE_FRAMES - 1, HUGE_FRAMES, HUGE_FRAMES + 1, TREE_FRAMES / 2 - 1, TREE_FRAMES / 2,
+                        TREE_FRAMES / 2 + 1, TREE_FRAMES - 1, TREE_FRAMES, rnd_n])
+                }
+                .min(in_tree.len());
+                let mode = if kind == 0 { 0 } else { rng.below(4) }; // 0,1: without slot; 2: through the slot; 3: mixed
+                let start = match rng.below(3) {
+                    0 => 0,
+                    1 => in_tree.len() - n,
+                    _ => rng.below(in_tree.len() - n + 1),
+                };
+                let mut sorted = in_tree.clone();
+                sorted.sort_unstable();
+                for &f in &sorted[start..start + n] {
+                    let slot = match mode {
+                        0 | 1 => None,
+                        2 => Some(0),
+                        _ => if rng.chance(1, 2) { Some(0) } else { None },
+                    };
                     if h.model.alloc[f] {
-                        h.exec(Op::Put { frame: f, order: 0, class: 0, slot: None });
+                        h.exec(Op::Put { frame: f, order: 0, class: 0, slot });
                     }
                 }
+                rep.tuples.insert(format!("one-tree frees: reserved_tree={} n_class={} mode={mode}", reserved.contains(&tree),
+                    match n { 0..=3 => "1-3", 4..=65 => "4-65", x if x < TREE_FRAMES / 2 => "<half", x if x < TREE_FRAMES => ">=half", _ => "whole" }));
             } else {
                 // free a random subset, each frame either through the slot or without
                 let p = *rng.pick(&[1usize, 2, 10, 50, 90]);
@@ -355,7 +464,7 @@ pub fn run_single(args: &Args) -> Report {
                     }
                 }
             }
-            if !exhaust(&mut h, &mut rep, if boundary_round { "after freeing 1-3 frames without slot into the reserved tree" } else { "after freeing a random subset" }) {
+            if !exhaust(&mut h, &mut rep, if boundary_round { "after freeing frames of one tree (the slot's reserved tree or another)" } else { "after freeing a random subset" }) {
                 break;
             }
             let _ = round;
@@ -800,6 +909,7 @@ pub fn run_wrappers(args: &Args) -> Report {
     let mut i = 0u64;
     let mut zone_runs = 0u64;
     let mut nvm_runs = 0u64;
+    let mut transplants = 0u64;
     let mut nvm_frames_checked = 0u64;
     let mut recovers = 0u64;
     let mut refused = 0u64;
@@ -883,8 +993,24 @@ pub fn run_wrappers(args: &Args) -> Report {
                     rep.violation("C17", &msg, || simple_replay("wrappers", "C17", &msg, J::obj()));
                 }
             }
+            // the persistent tail of an instance transplanted to the end of regions of other lengths
+            if rng.chance(1, 2) {
+                match catch(|| nvm_transplant(&mut rep, &mut rng)) {
+                    Ok((refu, rec)) => {
+                        refused += refu;
+                        recovers += rec;
+                        transplants += refu + rec;
+                        rep.evaluations += 1;
+                    }
+                    Err(p) => {
+                        let msg = format!("persistent wrapper transplant scenario panicked: {p}");
+                        rep.violation("C17", &msg, || simple_replay("wrappers", "C17", &msg, J::obj()));
+                    }
+                }
+            }
         }
     }
+    rep.add("nvm_tail_transplants", transplants);
     rep.add("zone_lockstep_runs", zone_runs);
     rep.add("nvm_zones", nvm_runs);
     rep.add("nvm_frames_checked_against_metadata_range", nvm_frames_checked);
@@ -921,6 +1047,108 @@ impl Drop for ZoneMem {
     fn drop(&mut self) {
         unsafe { libc::munmap(self.base as *mut _, self.len) };
     }
+}
+
+/// Region lengths at which the number of persistent metadata pages changes (T and T+1 differ)
+#[cfg(not(miri))]
+fn nvm_page_boundaries(classing: &llfree::Classing, max: usize) -> Vec<usize> {
+    let pages = |t: usize| LLFree::metadata_size(classing, t).lower.div_ceil(Frame::SIZE);
+    let mut out = Vec::new();
+    let mut prev = pages(8);
+    for t in 9..=max {
+        let p = pages(t);
+        if p != prev {
+            out.push(t - 1);
+        }
+        prev = p;
+    }
+    out
+}
+
+/// An instance is created in a region of `t` frames and used; its persistent tail (metadata pages +
+/// header page) is then copied to the end of regions of other lengths (all tree-aligned): recovery
+/// there must be refused ("no instance of the same size"); copied to the end of another region of
+/// the same length it must be recovered with the same allocation state.
+/// returns (refusals observed, recoveries compared)
+#[cfg(not(miri))]
+fn nvm_transplant(rep: &mut Report, rng: &mut Rng) -> (u64, u64) {
+    type N = NvmAlloc<'static, LLFree<'static>>;
+    let cfg = Cfg::simple(1);
+    let classing = cfg.classing();
+    let max = if cfg!(feature = "16K") { 40_000 } else { 140_000 };
+    static BOUNDS: std::sync::OnceLock<Vec<usize>> = std::sync::OnceLock::new();
+    let bounds = BOUNDS.get_or_init(|| nvm_page_boundaries(&classing, max));
+    let t = if !bounds.is_empty() && rng.chance(3, 4) {
+        // at, just below or just above a page-count boundary
+        (*rng.pick(bounds) + rng.below(3)).saturating_sub(1).max(16)
+    } else {
+        rng.range(16, 4 * TREE_FRAMES)
+    };
+    let place = Place::End;
+    let bufs = |frames: usize| {
+        let ms = LLFree::metadata_size(&classing, frames);
+        (Buf::new(ms.local, place, 0), Buf::new(ms.trees, place, 0xA5))
+    };
+    let fail = |rep: &mut Report, msg: String| {
+        let m2 = format!("NvmAlloc instance of {t} frames: {msg}");
+        rep.violation("C17", &m2, || simple_replay("wrappers", "C17", &m2, J::obj().with("zone_frames", t)));
+    };
+    let mem = ZoneMem::new(t + 8, 0);
+    let (l, tr) = bufs(t);
+    let nv = match N::create(mem.slice(t, 0), false, &classing, unsafe { l.slice() }, unsafe { tr.slice() }) {
+        Ok(n) => n,
+        Err(_) => return (0, 0),
+    };
+    let offset = mem.zone as usize / Frame::SIZE;
+    let managed = nv.frames();
+    // use it: a few base frames, a huge frame, so that "everything free" is distinguishable
+    let mut allocated = 0usize;
+    for i in 0..rng.range(1, 40) {
+        let order = if i % 7 == 3 && managed > 2 * HUGE_FRAMES { HUGE_ORDER } else { 0 };
+        if nv.get(None, cfg.request(order, (order >= HUGE_ORDER) as u8, Some(0))).is_ok() {
+            allocated += 1 << order;
+        }
+    }
+    let status: Vec<bool> = (0..managed).map(|f| nv.stats_at(FrameId(f + offset), 0).free_frames == 0).collect();
+    if status.iter().filter(|x| **x).count() != allocated {
+        fail(rep, format!("{} frames reported allocated after allocating {allocated}", status.iter().filter(|x| **x).count()));
+    }
+    let tail_pages = LLFree::metadata_size(&classing, t).lower.div_ceil(Frame::SIZE) + 2;
+    drop(nv);
+    let tail = |m: &ZoneMem, frames: usize, n: usize| -> *mut u8 { unsafe { (m.zone as *mut u8).add((frames - n) * Frame::SIZE) } };
+    let (mut refused, mut recovered) = (0u64, 0u64);
+    let mut others: Vec<usize> = vec![t + 1, t + 2, t.saturating_sub(1), t.saturating_sub(2), t + HUGE_FRAMES, t + TREE_FRAMES, t];
+    others.push(t + 1 + rng.below(64));
+    for other in others {
+        if other < tail_pages + 4 {
+            continue;
+        }
+        let n = tail_pages.min(other).min(t);
+        let m2 = ZoneMem::new(other + 8, rng.below(2));
+        unsafe { std::ptr::copy_nonoverlapping(tail(&mem, t, n), tail(&m2, other, n), n * Frame::SIZE) };
+        let (l2, t2) = bufs(other);
+        let r = catch(|| N::create(m2.slice(other, 0), true, &classing, unsafe { l2.slice() }, unsafe { t2.slice() }));
+        match r {
+            Err(p) => fail(rep, format!("create(recover=true) on a region of {other} frames holding the persistent tail of this instance panicked: {p}")),
+            Ok(Err(Error::Initialization)) if other != t => refused += 1,
+            Ok(Ok(nv2)) if other == t => {
+                let off2 = m2.zone as usize / Frame::SIZE;
+                let st2: Vec<bool> = (0..nv2.frames().min(managed)).map(|f| nv2.stats_at(FrameId(f + off2), 0).free_frames == 0).collect();
+                if nv2.frames() != managed || st2 != status {
+                    fail(rep, format!("its persistent tail at the end of another region of the same length recovers with a different state (frames {} vs {managed})", nv2.frames()));
+                }
+                recovered += 1;
+            }
+            Ok(Ok(nv2)) => {
+                fail(rep, format!(
+                    "create(recover=true) on a region of {other} frames recovered this instance of {t} frames (recovered allocator: {} frames, {} free; the instance had {allocated} allocated)",
+                    nv2.frames(), nv2.stats().free_frames
+                ));
+            }
+            Ok(Err(e)) => fail(rep, format!("create(recover=true) on a region of {other} frames holding the tail of this instance -> Err({e:?}){}", if other == t { " (same length: must recover)" } else { "" })),
+        }
+    }
+    (refused, recovered)
 }
 
 /// returns (frames checked, recoveries compared, refusals observed)
